@@ -62,7 +62,7 @@ class TapeProp(object):
         return self._avoid_empty
 
     def budget(self, tier):
-        return 5000 if tier == "quick" else 120_000
+        return 4000 if tier == "quick" else 120_000
 
     def selfcheck(self):
         return RT.validate()
@@ -79,6 +79,16 @@ class TapeProp(object):
     def generate(self, rng, tier, i):
         family = "fault_free" if rng.chance(0.3) else "full"
         unique = set()
+        if rng.chance(0.012):
+            # a peer-written tape at least as long as a disk image, opening leader-blank-leader; listed through the CLI
+            ops = []
+            for j in range(3):
+                fd = self.gen_fd(rng, unique)
+                fd.update({"len": rng.choice([60000, 61000, 65535]), "content": rng.choice(["zeros", "ff", "counter", "soup"]), "gap": 0})
+                ops.append({"op": "peer_record", "file": fd, "leader": rng.choice([64, 128, 300]), "blank": rng.choice([0, 64, 128]),
+                            "data_leader": 128, "blocks": None, "prefix": [rng.choice([0, 16, 200]), rng.choice([0, 0, 32])] if j == 0 else None})
+            ops.append({"op": "cli_list"})
+            return {"family": "big_peer", "ops": ops}
         n_ops = rng.weighted([(1, 2), (2, 4), (3, 4), (4, 3), (5, 2), (6, 2), (8, 1)])
         ops = []
         if tier == "thorough" and i % 7 == 0:
@@ -112,7 +122,8 @@ class TapeProp(object):
                                 "blank": rng.choice([0, 0, 1, 128, rng.randint(0, 256)]),
                                 "data_leader": rng.choice([None, 0, 1, 128, rng.randint(0, 300)]),
                                 "blocks": rng.choice([None, None, [255], [1], [rng.randint(1, 255)],
-                                                      [rng.randint(1, 255), rng.randint(1, 255), rng.randint(1, 255)]])})
+                                                      [rng.randint(1, 255), rng.randint(1, 255), rng.randint(1, 255)]]),
+                                "prefix": rng.choice([None, None, None, [20, 0], [64, 16], [1, 1], [300, 128]])})
                 else:
                     ops.append({"op": kind})
         return {"family": family, "ops": ops}
@@ -195,8 +206,11 @@ class TapeProp(object):
             elif kind == "peer_record":
                 res.stats["fault:peer_write"] += 1
                 last_file = materialise(op["file"])
+                pre = op.get("prefix") or [0, 0]
                 rec = RT.write_file(last_file, leader=op["leader"], blank=op["blank"], block_sizes=op.get("blocks"),
-                                    data_leader=op.get("data_leader"))
+                                    data_leader=op.get("data_leader"), prefix=b"\x55" * pre[0] + b"\x00" * pre[1])
+                if len(st["buf"]) + len(rec) >= 161280 > len(st["buf"]):
+                    res.stats["probe:peer_tape_reached_disk_size"] += 1
                 st["buf"] = st["buf"] + rec
                 w.log.add("PEER", "record", len(rec), hashlib.sha256(rec).hexdigest()[:16])
                 st["cont"] = None
